@@ -101,6 +101,11 @@ fn main() {
             let count: usize = args[3].parse().unwrap();
             extra::cycles(seed, count).print();
         }
+        "resizesweep" => {
+            // cfbh resizesweep <outfile> <shard> <nshards>
+            let n = lockstep::resize_sweep(&args[2], args[3].parse().unwrap(), args[4].parse().unwrap());
+            println!("{{\"evaluations\": {}, \"distinct\": {}, \"failures\": [], \"samples\": [\"create /s with a bytes; set_len(b); cat; entry; remove; for every (a, b) in the boundary set squared, V3 and V4\"], \"notes\": {{}}}}", n, n);
+        }
         "uptable" => {
             // every scalar value whose CFB upper-casing is not the identity
             let mut n = 0u32;
